@@ -1196,6 +1196,9 @@ class Converter:
             )
 
     def _translate_loop_stmt(self, loop_stmt: ast.For | ast.While) -> None:
+        if loop_stmt.orelse:
+            # The else-clause would otherwise be dropped silently.
+            self._fail(loop_stmt, "The else-clause of a loop is not supported.")
         # loop-variable
         if isinstance(loop_stmt, ast.For):
             if not isinstance(loop_stmt.target, ast.Name):
